@@ -2,9 +2,9 @@
 from __future__ import annotations
 from engine.registry import Registry
 from engine import sortmodel, polymodel
-from contracts import option, sorting, align, compare, order_lemmas, leading, dispatch, construct, dispatchfn, baseclass, derivative, division, statics, call, codec, shapefn, display, polynomial, numeric, multiply, indexing
+from contracts import option, sorting, align, compare, order_lemmas, leading, dispatch, construct, dispatchfn, baseclass, derivative, division, statics, call, codec, shapefn, display, polynomial, numeric, multiply, indexing, linalg
 
-_CONTRACT_MODULES = [option, sorting, align, compare, leading, dispatch, construct, dispatchfn, baseclass, derivative, division, call, codec, shapefn, polynomial, numeric, multiply, indexing, display]
+_CONTRACT_MODULES = [option, sorting, align, compare, leading, dispatch, construct, dispatchfn, baseclass, derivative, division, call, codec, shapefn, polynomial, numeric, multiply, indexing, display, linalg]
 
 ALL_CONTRACTS = {}
 for _m in _CONTRACT_MODULES:
@@ -138,7 +138,7 @@ PROPS = {
                 "'target region is fresh or a declared output', with regions tracked through views (.values columns, ravel). "
                 "Re-posed here for functions whose anchors the property names; byte-level snapshots of arguments around 82 public "
                 "operations are the bounded run-time check.", trusted_base=COMMON_TRUSTED),
-    "C02": dict(level="other", contracts=["numpoly.call"],
+    "C02": dict(level="other", contracts=["numpoly.call", "numpoly.outer"],
                 explanation="call (real source) is proved for numeric evaluation at scalar points: for ANY number of terms, exponents, "
                 "coefficient values and polynomial array shape, result[i] = sum over all terms of C(t,i) * prod_d a_d**E(t,d) (ghost "
                 "sum defined by recursion; loop invariant over the term loop, first iteration peeled), where a_d is the point the "
@@ -154,7 +154,8 @@ PROPS = {
                 "result - a polynomial, or the plain array tonumpy gives when it comes out constant - has the shape of poly and the "
                 "value  sum_t C(t,i) * prod_d a_d ** E(t,d)  in the polynomial ring (ghost sum over PV, loop invariant with the first "
                 "iteration peeled, through the value-level contracts of power, multiply, add, clean_attributes and "
-                "align_indeterminants, all proved from their source; numpoly.outer(array, 0-d polynomial).reshape is assumed). "
+                "align_indeterminants and outer (element (i, j) = a.ravel()[i] * b.ravel()[j], contracts/linalg.py), all proved from their source; "
+                "the reshape of that outer product to a.shape + b.shape is numpy's ndarray.reshape (axiom)). "
                 "Array-valued polynomial arguments are covered by three further cases (result[i ++ j] with the arguments' shapes "
                 "broadcasting). Numbers mixed with polynomial arguments, staged evaluation and machine-number "
                 "kinds: bounded run-time checks (conc/checks_c02.py, exact oracle).",
@@ -163,7 +164,7 @@ PROPS = {
                                                "assumed shape-only contract of numpoly.polynomial(number)"],
                 assumptions=["A1 (reals; x**e uninterpreted)", "machine integer arithmetic outside int64 is out of scope (numpy semantics)",
                              "D <= 2 and binding patterns enumerated",
-                             "assumed: numpoly.outer(array, 0-d polynomial) reshaped to the array's shape multiplies element-wise; "
+                             "numpy axiom: outer(a, b).reshape(a.shape + b.shape)[i ++ j] is outer(a, b)[position of i in a.ravel(), position of j in b.ravel()]; "
                              "B10 (a constant polynomial denotes the constant tonumpy returns)"],
                 not_decided=["numbers mixed with polynomial arguments, partial evaluation with array arguments, staged evaluation (bounded)",
                              "independence of the numeric type carrying an argument (bounded)"]),
@@ -267,7 +268,7 @@ PROPS = {
                 not_decided=["choose with a list of choice arrays (bounded only)",
                              "which element numpy places where (numpy semantics: bounded conformance)"]),
     "C10": dict(level="other", contracts=["numpoly.simple_dispatch", "numpoly.sum", "numpoly.cumsum", "numpoly.mean", "numpoly.diff",
-                                          "numpoly.multiply", "numpoly._prod", "numpoly.prod"],
+                                          "numpoly.multiply", "numpoly._prod", "numpoly.prod", "numpoly.outer"],
                 explanation="sum/cumsum/mean are proved to apply numpy.sum/cumsum/mean to every coefficient column of the operand with "
                 "axis/dtype/keepdims forwarded unchanged (contract of simple_dispatch: every column written, rows/names kept); that a "
                 "linear column-wise reduction denotes the finite sum of the elements is bridge B5. diff is proved: the operands "
@@ -277,7 +278,9 @@ PROPS = {
                 "(C01); _prod, the core of prod, is proved for axis 0 and 1 to return the product of ALL slices along the axis, each "
                 "once, in index order (loop invariant over the multiply contract). prod itself is proved, for a literal axis 0 or 1, to be "
                 "exactly one application of _prod to the operand along the requested axis (and, with keepdims, that result with the "
-                "axis put back). prod with axis=None / negative axes / several axes, ediff1d, inner, outer, "
+                "axis put back). outer is proved: shape (a.size, b.size), element (i, j) = a.ravel()[i] * b.ravel()[j], over the contracts of "
+                "align_exponents, __getitem__ and multiply and numpy's axioms for ravel, [:, newaxis] and column-against-row broadcasting. "
+                "prod with axis=None / negative axes / several axes, ediff1d, inner, "
                 "matmul, det (axis/index algebra): bounded run-time checks "
                 "(conc/checks_c10.py).",
                 trusted_base=COMMON_TRUSTED),
@@ -322,9 +325,10 @@ PROPS = {
                                           "numpoly.power"],
                 explanation="The storage-key codec is proved from the real source of baseclass.py, with KEY_OFFSET read from the class "
                 "body on every run: ndpoly.__new__ stores row t under the field name whose code points are exactly E(t,d)+KEY_OFFSET "
-                "(no wrap-around, no NUL, valid unicode), different rows get different field names, and for ARBITRARY integer exponents "
-                "it either does that or raises ValueError/SystemError for a real reason (an entry outside [0, 0x10FFFF-KEY_OFFSET] or a "
-                "repeated row) - a different monomial is never stored; the `exponents` property decodes exactly the stored rows "
+                "(no wrap-around in uint32, no NUL; valid unicode for one-character keys - numpy accepts larger code points in longer "
+                "keys and the row is then stored exactly as well), different rows get different field names, and for ARBITRARY integer "
+                "exponents it either does that or raises ValueError/SystemError for a real reason (an entry outside the storable range "
+                "or a repeated row) - a different monomial is never stored; the `exponents` property decodes exactly the stored rows "
                 "(decode(encode(row)) == row, no truncation). All contracts above it are phrased on exponent VALUES with no bound "
                 "below the storable range, so construction, alignment, differentiation (derivative: storability of the lowered "
                 "exponents is an obligation) and pickling carry any storable exponent. multiply: the result rows are exactly the exponent "
@@ -334,7 +338,7 @@ PROPS = {
                 "by the loop invariant over multiply. Evaluation at large exponents, the compiled kernel itself and text I/O: "
                 "exhaustive / bounded run-time checks (conc/checks_c20.py).",
                 trusted_base=COMMON_TRUSTED + ["numpy axioms of engine/codecmodel.py: uint32 wrap-around, 'U<w>' <-> uint32 views, "
-                                               "astype padding, numpy.dtype field-name rules, code points above 0x10FFFF raise (observed on numpy 2.5.3)",
+                                               "astype padding, numpy.dtype field-name rules; a code point above 0x10FFFF raises in a one-character name and is accepted OR raises in a longer one (observed on numpy 2.5.3: accepted)",
                                                "assumed contract of numpoly.symbols (default names)"],
                 assumptions=["A3 numpy axioms (conformance: the exhaustive single-exponent sweep of the bounded part)"],
                 not_decided=["compiled cmultiply kernel (assumed; exhaustive products to exponent sum 600 at run time)", "savetxt/loadtxt of keys (bounded)"]),
